@@ -47,6 +47,34 @@ const (
 	batchRecheck     = 300 * time.Millisecond
 )
 
+// debugging aid (VERIF_C16_DEBUG=1): keep the server's own verbose log and show the
+// lines about connections whose label is in doubt when a batch does not add up
+type lockedBuf struct {
+	mu sync.Mutex
+	b  []byte
+}
+
+func (l *lockedBuf) Write(p []byte) (int, error) {
+	l.mu.Lock()
+	l.b = append(l.b, p...)
+	l.mu.Unlock()
+	return len(p), nil
+}
+
+func (l *lockedBuf) String() string { l.mu.Lock(); defer l.mu.Unlock(); return string(l.b) }
+
+var (
+	debugLog  *lockedBuf
+	debugArgs []string
+)
+
+func init() {
+	if os.Getenv("VERIF_C16_DEBUG") != "" {
+		debugLog = &lockedBuf{}
+		debugArgs = []string{"-verbose"}
+	}
+}
+
 type snap map[[2]string]int64
 
 func (s snap) total() int64 {
@@ -105,7 +133,7 @@ var (
 func startLane(run *verdict.Run, id int, backendURL string) (*lane, error) {
 	l := &lane{id: id, run: run}
 	px, err := rig.StartProxy(backendURL, rig.ProxyOpts{
-		Args: []string{"-timeout-tls-handshake", handshakeTimeout.String(), "-timeout-http-idle", idleTimeout.String()},
+		Args: append([]string{"-timeout-tls-handshake", handshakeTimeout.String(), "-timeout-http-idle", idleTimeout.String()}, debugArgs...),
 		Listener: func(in net.Listener) net.Listener {
 			l.acct = rig.NewAcctListener(in)
 			return l.acct
@@ -115,6 +143,9 @@ func startLane(run *verdict.Run, id int, backendURL string) (*lane, error) {
 		return nil, err
 	}
 	l.px = px
+	if debugLog != nil {
+		rig.Quiet(debugLog)
+	}
 	l.prev = l.gather(nil)
 	return l, nil
 }
@@ -524,7 +555,7 @@ func (l *lane) batch(cases []*caseSpec) {
 	clientsDone := time.Now()
 	w := &batchWitness{Mode: "batch", Cases: cases, Before: prev.String()}
 	connected := 0
-	byLocal := map[string]*result{}
+	byLocal := map[string][]*result{} // a client port can be reused within one batch
 	for i, r := range results {
 		if r.Anomaly != "" {
 			run.Add("harness_anomalies", 1)
@@ -532,7 +563,7 @@ func (l *lane) batch(cases []*caseSpec) {
 		}
 		if r.Connected {
 			connected++
-			byLocal[r.Local] = r
+			byLocal[r.Local] = append(byLocal[r.Local], r)
 		}
 	}
 	// every TCP connection the clients established is handed out by Accept()
@@ -554,22 +585,34 @@ func (l *lane) batch(cases []*caseSpec) {
 	exact := snap{}
 	amb := map[string]int{} // protocol -> number of connections allowed {fail, ok(proto)}
 	matched := 0
+	accByAddr := map[string]int{}
 	for _, ac := range conns {
-		r := byLocal[ac.RemoteAddr().String()]
-		if r == nil || r.Anomaly != "" || len(r.Allowed) == 0 {
-			run.Inconclusive("batch: accepted connection from %v has no judged client case", ac.RemoteAddr())
+		accByAddr[ac.RemoteAddr().String()]++
+	}
+	for addr, n := range accByAddr {
+		rs := byLocal[addr]
+		if len(rs) != n {
+			// some connection from this address was never accepted (or is not ours): which one is unknown
+			run.Inconclusive("batch: %d accepted connection(s) from %s but %d client case(s)", n, addr, len(rs))
 			l.resync()
 			return
 		}
-		matched++
-		switch {
-		case len(r.Allowed) == 1:
-			exact[r.Allowed[0]]++
-		case len(r.Allowed) == 2 && r.Allowed[0] == lblFail && r.Allowed[1][0] == "1":
-			amb[r.Allowed[1][1]]++
-			run.Add("batch_two_label_cases", 1)
-		default:
-			panic(fmt.Sprintf("unexpected allowed set %v", r.Allowed))
+		for _, r := range rs {
+			if r.Anomaly != "" || len(r.Allowed) == 0 {
+				run.Inconclusive("batch: accepted connection from %s has no judged client case", addr)
+				l.resync()
+				return
+			}
+			matched++
+			switch {
+			case len(r.Allowed) == 1:
+				exact[r.Allowed[0]]++
+			case len(r.Allowed) == 2 && r.Allowed[0] == lblFail && r.Allowed[1][0] == "1":
+				amb[r.Allowed[1][1]]++
+				run.Add("batch_two_label_cases", 1)
+			default:
+				panic(fmt.Sprintf("unexpected allowed set %v", r.Allowed))
+			}
 		}
 	}
 	if matched < connected {
@@ -635,6 +678,19 @@ func (l *lane) batch(cases []*caseSpec) {
 			why = append(why, fmt.Sprintf("label %v moved", k))
 		}
 	}
+	if !okLabels && debugLog != nil {
+		logs := strings.Split(debugLog.String(), "\n")
+		for i, r := range results {
+			if !r.Connected {
+				continue
+			}
+			for _, ln := range logs {
+				if strings.Contains(ln, "("+r.Local+")") && !strings.Contains(ln, "client hello (") {
+					fmt.Printf("[debug] case %+v\n         result %+v\n         log %s\n", *cases[i], *r, ln)
+				}
+			}
+		}
+	}
 	if !okLabels {
 		run.Violation("batch-wrong-labels", w, "batch of %d concurrent connections: total is right but the per-label counts are not the expected multiset: %s; delta %v, expected %s",
 			accepted, strings.Join(why, "; "), d, w.Expected)
@@ -679,6 +735,9 @@ func noteCase(run *verdict.Run, c *caseSpec, r *result, prefix string) {
 	run.Add(prefix+"conn_"+c.Kind, 1)
 	if c.Kind == "abort" {
 		run.Add(prefix+"abort_"+r.Class, 1)
+		if r.Class == "after-fin-noproof" && os.Getenv("VERIF_C16_DEBUG") != "" {
+			fmt.Printf("[debug] noproof case %+v\n   result %+v\n", *c, *r)
+		}
 	}
 	if r.Weak {
 		run.Add(prefix+"two_label_oracle", 1)
